@@ -7,15 +7,15 @@ Open Scope N_scope.
 Definition gen_rfast := tbl_fast gen_render_fastpath.
 Definition gen_mfast := tbl_fast gen_macro_fastpath.
 
-(* (1) For every file set, every scope and every render expression:
-   {{ render p }} and {% var v = render p %}{{ v }} are lowered (by the code
-   own fast path tables) to instructions that produce the same output and the
-   same outcome -- for every pair of formats.  Hypotheses: the rendered file
-   has no deferred call (else refuted, see below), the context is a plain
-   context outside a URL, the renderer is outside a URL, the file renders
-   without error, a value of the context own format type is written as it
-   is and a Markdown value in HTML is converted by the configured converter. *)
-Definition C16_render_value_statement : Prop :=
+(* (1) Full statement: for every file set, every scope and every render
+   expression, {{ render p }} and {% var v = render p %}{{ v }} are lowered (by
+   the code own fast path tables) to instructions that produce the same output
+   and the same outcome.  Hypotheses common to both forms: the rendered file
+   has no deferred call, the context is a plain context outside a URL, the
+   renderer is outside a URL, the file renders without error, a value of the
+   context own format type is written as it is and a Markdown value in HTML is
+   converted by the configured converter. *)
+Definition C16_render_value_statement (formats_match : bool) : Prop :=
   forall vals showf conv cf fs fuel sc params c p n1 n2 fmt body ctx isSet st ws stb bws,
   lower_nodes vals fs gen_mfast gen_rfast (S (S fuel)) sc params [SShow c (ERender p)] = Some [n1] ->
   lower_nodes vals fs gen_mfast gen_rfast (S (S fuel)) sc params [SVarShow c (ERender p)] = Some [n2] ->
@@ -23,18 +23,32 @@ Definition C16_render_value_statement : Prop :=
   decode_ctx c = Some (ctx, false, isSet) -> mem gen_show_known_ctx ctx = true ->
   st_inv st -> inURL st = false ->
   exec_list showf conv cf never r0 w0 body = (stb, bws, Done) ->
+  (if formats_match then fast_path fmt ctx = true else True) ->
   (fmt = ctx -> showf_same showf c fmt (bytes_of bws)) ->
   (fmt <> ctx -> fast_path fmt ctx = true -> showf_md showf conv c fmt (bytes_of bws)) ->
   snd (exec_node showf conv cf never st ws n1) = snd (exec_node showf conv cf never st ws n2) /\
   bytes_of (snd (fst (exec_node showf conv cf never st ws n1))) = bytes_of (snd (fst (exec_node showf conv cf never st ws n2))).
 
-Theorem render_equals_show_of_value : C16_render_value_statement.
+(* proved when the format of the file is the format of the context, or the
+   file is Markdown and the context HTML (fast_path fmt ctx) *)
+Theorem render_equals_show_of_value_partial : C16_render_value_statement true.
 Proof.
-  intros vals showf conv cf. intros.
-  eapply (render_equals_show_of_value_thm vals gen_mfast gen_rfast
-            (fun f x H => tbl_fast_sound _ f x (proj1 fastpath_tables_agree) H) showf conv cf); eassumption.
+  intros vals showf conv cf fs fuel sc params c p n1 n2 fmt body ctx isSet st ws stb bws L1 L2 RC D K Inv U Hb FP Hs Hm.
+  eapply (render_equals_show_of_value_thm vals gen_mfast gen_rfast showf conv cf); try eassumption.
+  intros _. exact FP.
 Qed.
-Print Assumptions render_equals_show_of_value.
+Print Assumptions render_equals_show_of_value_partial.
+
+(* for the other pairs of formats the faithful model refutes it (recorded
+   finding render-fastpath-format): a text file with markup rendered into HTML *)
+Theorem render_equals_show_of_value_refuted :
+  let run node := match build_and_run demo_vals (demo_fs node) None 5 0 never with
+                  | Some (ws, r) => Some (concat (w_out ws), r)
+                  | None => None
+                  end in
+  run (SShow 1 (ERender 1)) = Some ([60; 98; 62], RunNil) /\
+  run (SVarShow 1 (ERender 1)) = Some ([38; 108; 116; 59; 98; 38; 103; 116; 59], RunNil).
+Proof. exact render_fastpath_format_refutes. Qed.
 
 (* (2) a host of the same format that renders p runs exactly as p on its own, for every writer *)
 Theorem render_equals_standalone :
@@ -126,24 +140,12 @@ Example import_whole_file_example :
   /\ lower_plain demo_vals fs gen_mfast gen_rfast 6 1 <> None.
 Proof. exact import_inline_example. Qed.
 
-(* T1 obligations: the generated fast path tables are the format condition *)
+(* T1 obligations, the code as it is: canOptimizeShowMacro has the format
+   condition, the render fast path is unconditional *)
 Theorem fastpath_tables_hold :
-  forallb (fun t => match t with (f, c, b) => Bool.eqb b (fast_path f c) end) gen_render_fastpath = true /\
-  forallb (fun t => match t with (f, c, b) => Bool.eqb b (fast_path f c) end) gen_macro_fastpath = true.
+  forallb (fun t => match t with (f, c, b) => Bool.eqb b (fast_path f c) end) gen_macro_fastpath = true /\
+  forallb (fun t => match t with (f, c, b) => b end) gen_render_fastpath = true.
 Proof. exact fastpath_tables_agree. Qed.
-
-(* refuted for a fast path without the format test (the emitter before the
-   repair): a text file with markup rendered into HTML comes out unescaped
-   through {{ render }}, escaped through the value form *)
-Theorem render_equals_show_of_value_refuted_without_format_test :
-  let always : N -> N -> bool := fun _ _ => true in
-  let run node := match lower_main demo_vals gen_mfast always (demo_fs node) 5 0 with
-                  | Some f => Some (concat (w_out (fst (run_main (showf_model None) None false never f))))
-                  | None => None
-                  end in
-  run (SShow 1 (ERender 1)) = Some [60; 98; 62] /\
-  run (SVarShow 1 (ERender 1)) = Some [38; 108; 116; 59; 98; 38; 103; 116; 59].
-Proof. exact unconditional_fast_path_refutes. Qed.
 
 (* refuted when the rendered file has a deferred call (recorded finding) *)
 Theorem render_equals_show_of_value_refuted_with_deferred_call :
@@ -156,12 +158,14 @@ Theorem render_equals_show_of_value_refuted_with_deferred_call :
   run (SShow 1 (ERender 1)) = Some ([97], RunNil) /\ run (SVarShow 1 (ERender 1)) = Some ([], RunNil).
 Proof. exact deferred_call_refutes_value_form. Qed.
 
-(* the hypotheses of (1) are satisfiable: the same two files with the generated tables *)
+(* the hypotheses of (1) are satisfiable: an HTML file rendered into HTML *)
 Example C16_example :
-  let run node := match build_and_run demo_vals (demo_fs node) None 5 0 never with
+  let fs node := [(0, mkFile gen_FormatHTML None [] [] false [node]);
+                  (1, mkFile gen_FormatHTML None [] [] false [SText [60; 98; 62] false false])] in
+  let run node := match build_and_run demo_vals (fs node) None 5 0 never with
                   | Some (ws, r) => Some (concat (w_out ws), r)
                   | None => None
                   end in
-  run (SShow 1 (ERender 1)) = Some ([38; 108; 116; 59; 98; 38; 103; 116; 59], RunNil) /\
-  run (SVarShow 1 (ERender 1)) = Some ([38; 108; 116; 59; 98; 38; 103; 116; 59], RunNil).
-Proof. exact generated_fast_path_example. Qed.
+  run (SShow 1 (ERender 1)) = Some ([60; 98; 62], RunNil) /\
+  run (SVarShow 1 (ERender 1)) = Some ([60; 98; 62], RunNil).
+Proof. exact matching_formats_example. Qed.
